@@ -367,7 +367,7 @@ func c08Gen(r *Rng, i int, tier string) any {
 	in.Live = rest
 	nops := 10 + r.Intn(40)
 	if slow {
-		nops += 110
+		nops += 150
 	}
 	kinds := []string{"num", "num", "forks", "cursor", "through"}
 	if slow {
@@ -376,9 +376,9 @@ func c08Gen(r *Rng, i int, tier string) any {
 	for k := 0; k < nops; k++ {
 		c := r.Intn(100)
 		switch {
-		case c < 55 || (slow && c < 85):
+		case (!slow && c < 55) || (slow && c < 78):
 			in.Ops = append(in.Ops, c08Op{Op: "push"})
-		case c < 80:
+		case (!slow && c < 80) || (slow && c < 88):
 			in.Ops = append(in.Ops, c08Op{Op: "sub", Kind: kinds[r.Intn(len(kinds))], Sel: r.Intn(1 << 16), Sel2: r.Intn(1 << 16)})
 		default:
 			in.Ops = append(in.Ops, c08Op{Op: "drain", Which: r.Intn(1 << 16), Skip0: slow})
